@@ -32,7 +32,7 @@ class LoopSpec:
     """inductive invariant of one loop of a function under contract"""
 
     def __init__(self, text=None, ordinal=None, havoc=None, heap_havoc=None, inv=None, measure=None,
-                 body_post=None, name=None):
+                 body_post=None, name=None, ghost_init=None, ghost_update=None):
         self.text = text
         self.ordinal = ordinal
         self.havoc = havoc or {}
@@ -40,6 +40,8 @@ class LoopSpec:
         self.inv = inv
         self.measure = measure
         self.body_post = body_post
+        self.ghost_init = ghost_init        # env -> None: create ghost locals before the loop
+        self.ghost_update = ghost_update    # ctx (with iter_effects) -> None: update ghost locals at the back-edge
         self.name = name or (text or f'loop{ordinal}')
 
     def matches(self, ordinal, text):
@@ -51,6 +53,10 @@ class LoopSpec:
     def _havoc(self, it, env):
         st = it.st
         for name, kind in self.havoc.items():
+            if name.startswith('ghost:'):
+                st.ghost[name] = {'int': lambda: SymI(st.fresh_int(name[6:])), 'bool': lambda: SymB(st.fresh_bool(name[6:])),
+                                  'val': lambda: SymV(st.fresh_val(name[6:]))}[kind]()
+                continue
             found, cur = env.lookup(name)
             if kind == 'int':
                 env.vars[name] = SymI(st.fresh_int(name))
@@ -97,6 +103,8 @@ class LoopSpec:
             length = base.len
             elem_at = lambda i: lower(base.at(i), st)
         live = getattr(self, 'live_list', None)
+        if self.ghost_init is not None:
+            self.ghost_init(it, env)
         ctx = LoopCtx(it, env, z3.IntVal(0), length, base, self)
         ctx.entry_effects = len(st.effects)
         self._check(it, env, ctx, 'entry', fname)
@@ -123,6 +131,10 @@ class LoopSpec:
             except BreakEx:
                 return
             ctx2 = LoopCtx(it, env, i + 1, length, base, self)
+            ctx2.iter_effects = st.effects[eff0:]
+            ctx2.i_before = i
+            if self.ghost_update is not None:
+                self.ghost_update(ctx2)
             self._check(it, env, ctx2, 'preserved', fname)
             if self.body_post is not None:
                 ctx2.iter_effects = st.effects[eff0:]
@@ -139,6 +151,8 @@ class LoopSpec:
     def run_while(self, it, s, env):
         st = it.st
         fname = env.finfo.qualname
+        if self.ghost_init is not None:
+            self.ghost_init(it, env)
         ctx = LoopCtx(it, env, None, None, None, self)
         self._check(it, env, ctx, 'entry', fname)
         always = isinstance(s.test, ast.Constant) and s.test.value is True
@@ -162,6 +176,9 @@ class LoopSpec:
             except BreakEx:
                 return
             ctx2 = LoopCtx(it, env, None, None, None, self)
+            ctx2.iter_effects = st.effects[eff0:]
+            if self.ghost_update is not None:
+                self.ghost_update(ctx2)
             self._check(it, env, ctx2, 'preserved', fname)
             if m0 is not None:
                 m1 = self.measure(ctx2)
@@ -187,6 +204,8 @@ class LoopCtx:
         self.iter_effects = []
 
     def var(self, name):
+        if name.startswith('ghost:'):
+            return self.st.ghost[name]
         found, v = self.env.lookup(name)
         if not found:
             raise Unsupported(f'loop invariant refers to unbound local {name}')
